@@ -20,7 +20,8 @@
 //     type; a pointer to a struct becomes `Option <structure>` and a field
 //     access through a nil pointer makes the result `none` (a panic);
 //   - statements: if / else, expression-less and tagged switch (no
-//     fallthrough), return (also naked), :=, =, op=, ++, --, var, assignments
+//     fallthrough), return (also naked), :=, =, op=, ++, --, var, local const
+//     (skipped: its uses are folded like every other constant), assignments
 //     to fields of the receiver or of local struct values; statements after a
 //     branching statement are duplicated into both branches;
 //   - expressions: literals, constants (folded with go/types, so imported
@@ -1171,6 +1172,10 @@ func (c *fctx) stmts(list []ast.Stmt) string {
 		return c.stmts(rest)
 	case *ast.DeclStmt:
 		gd, ok := x.Decl.(*ast.GenDecl)
+		if ok && gd.Tok == token.CONST {
+			// local constants: every use is folded by go/types
+			return c.stmts(rest)
+		}
 		if !ok || gd.Tok != token.VAR {
 			fail("declaration %s", c.show(x))
 		}
